@@ -100,3 +100,42 @@ pub fn input_tensor(ctx: &mut Ctx, shape: &Shape, p: &str) -> Tensor {
     }
 }
 
+
+/// post-activation output of one layer through its public `forward`
+pub fn layer_forward(layer: &Layer, x: &Tensor) -> Tensor {
+    match layer {
+        Layer::Dense(l) => l.forward(x).1,
+        Layer::Convolution(l) => l.forward(x).1,
+        Layer::Deconvolution(l) => l.forward(x).1,
+        Layer::Maxpool(l) => l.forward(x).1,
+        Layer::Feedback(l) => l.forward(x).1,
+    }
+}
+
+/// apply layers `from..=to` of a network in order
+pub fn range_forward(net: &Network, from: usize, to: usize, x: &Tensor) -> Tensor {
+    let mut cur = x.clone();
+    for i in from..=to {
+        cur = layer_forward(&net.layers[i], &cur);
+    }
+    cur
+}
+
+/// a tensor with the shape of `like` holding `vals` in row-major order
+pub fn rewrap(like: &Tensor, vals: &[S]) -> Tensor {
+    match &like.data {
+        Data::Single(_) => t1(&vals.to_vec()),
+        Data::Triple(d) => {
+            let (h, w) = (d[0].len(), d[0][0].len());
+            t3(&vals.chunks(h * w).map(|m| m.chunks(w).map(|r| r.to_vec()).collect()).collect())
+        }
+        Data::Double(d) => t2(&vals.chunks(d[0].len()).map(|r| r.to_vec()).collect()),
+        _ => panic!("harness: rewrap of an unsupported rank"),
+    }
+}
+
+/// element-wise accumulation of tensors of equal element count (shape of `a`)
+pub fn combine_t(acc: Acc, a: &Tensor, others: &[Tensor]) -> Tensor {
+    let o: Vec<V1> = others.iter().map(elems).collect();
+    rewrap(a, &acc.combine(&elems(a), &o))
+}
